@@ -553,6 +553,7 @@ def runOp (op : String) (args : List String) : String :=
   | "tsig.time", [now, ts, fudge] => match now.toNat?, ts.toNat?, fudge.toNat? with
     | some now, some ts, some fudge => showB (tsigTimeOk now ts fudge) | _, _, _ => "bad-op"
   | "canon", args => canonOp args
+  | "sign.labels", [o] => toString (signLabels (parseLabels o))
   | "sig0.walk", [b] => match unhex b with
     | some buf =>
       if buf.length < 12 then "short" else
@@ -659,6 +660,18 @@ def runOp (op : String) (args : List String) : String :=
       let (rs, e) := ZoneText.readZone org d text
       ((if e then "err " else "ok ") ++ " ".intercalate (rs.map fun r => s!"{hex r.name}:{r.ttl}:{r.cls}:{r.typ}")).trimAscii.toString
     | _, _ => "bad-op"
+  | "zone.include", allowed :: origin :: dttl :: t :: files =>
+    (match unhex origin, unhex t with
+    | some org, some text =>
+      let tbl : List (Bytes × Bytes) := files.filterMap fun f => match f.splitOn "=" with
+        | [n, c] => (match unhex n, unhex c with | some a, some b => some (a, b) | _, _ => none)
+        | _ => none
+      let fs := fun (p : Bytes) => (tbl.find? (fun x => x.1 == p)).map (·.2)
+      let d := if dttl == "-" then none else dttl.toNat?
+      let r := Inc.readZoneI fs (allowed == "1") org d text
+      let hs := ((if r.err then "err " else "ok ") ++ " ".intercalate (r.hdrs.map fun r => s!"{hex r.name}:{r.ttl}:{r.cls}:{r.typ}")).trimAscii.toString
+      (hs ++ " | " ++ " ".intercalate (r.opens.map fun o => hex o.2)).trimAscii.toString
+    | _, _ => "bad-op")
   | "opt.describe", [t] => (match unhex t with | some b => optOp false b | none => "bad-op")
   | "opt.repack", [t] => (match unhex t with | some b => optOp true b | none => "bad-op")
   | "svc.describe", [t] => (match unhex t with | some b => svcOp false b | none => "bad-op")
